@@ -19,6 +19,7 @@ def handleCommute (st : St) (op : String) (j : Json) : Option (D (St × Json)) :
     | .replace f1 t1 s1 _, .replace f2 t2 s2 _ =>
       let e1 := depthAt d.kids f1 - s1.openStart
       let e2 := depthAt d.kids f2 - s2.openStart
-      return (st, ok (Json.arr #[Json.bool (insideLeft d.kids f1 t1 e1 f2 t2 e2)]))
+      return (st, ok (Json.arr #[Json.bool (insideLeft d.kids f1 t1 e1 f2 t2 e2),
+        Json.bool (insideRight d.kids f1 t1 e1 f2 t2 e2), Json.bool (commuteGuard d.kids f1 t1 s1 f2 t2 s2)]))
     | _, _ => return (st, ok Json.null)
   | _ => none
